@@ -27,8 +27,40 @@ Fixpoint add_children (from : tname) (cs : list (key * bool * tname * tnode)) (a
   | (k, o, _, v) :: r => if memn k (pkeys acc) then Err 402 else add_children from r (acc ++ [(k, o, from, v)])
   end.
 
+Definition prop := (key * bool * tname * tnode)%type.
+(* additionalProperties of the heir (ap) and of the ancestor (cap): the ancestor's rule is adopted when the heir has
+   none; two rules must be the same *)
+Definition ap_join (ap cap : N) : res N :=
+  if N.eqb cap 0 then Ok ap else if N.eqb ap 0 then Ok cap else if N.eqb ap cap then Ok ap else Err 705.
+
 Section Compile.
   Variable defs : tdefs.
+  (* extend(node, names): in the order of the rule; rec = "compile this type" (processType) *)
+  Fixpoint each (rec : list tname -> tnode -> res tnode) (processing : list tname) (names : list tname)
+                (acc : list prop) (ap : N) : res (list prop * N) :=
+    match names with
+    | [] => Ok (acc, ap)
+    | name :: r =>
+      if memn name processing then Err 703
+      else match tlookup name defs with
+           | None => Err 1302
+           | Some t =>
+             do ct <- rec (name :: processing) t;
+             match ct with
+             | TLeaf => Err 704
+             | TObj cprops _ cap =>
+               do ap' <- ap_join ap cap;
+               do acc' <- add_children name cprops acc;
+               each rec processing r acc' ap'
+             end
+           end
+    end.
+  (* then the children, inherited copies included *)
+  Fixpoint kids (rec : tnode -> res tnode) (ps : list prop) : res (list prop) :=
+    match ps with
+    | [] => Ok []
+    | (k, o, fr, v) :: r => do v' <- rec v; do r' <- kids rec r; Ok ((k, o, fr, v') :: r')
+    end.
   Fixpoint cnode (fuel : nat) (processing : list tname) (n : tnode) : res tnode :=
     match fuel with
     | O => Panic OutOfFuel
@@ -36,36 +68,9 @@ Section Compile.
       match n with
       | TLeaf => Ok TLeaf
       | TObj props allof ap =>
-        (* extend(node, names): in the order of the rule *)
-        do ext <- (fix each (names : list tname) (acc : list (key * bool * tname * tnode)) (ap : N)
-                   : res (list (key * bool * tname * tnode) * N) :=
-                     match names with
-                     | [] => Ok (acc, ap)
-                     | name :: r =>
-                       if memn name processing then Err 704
-                       else match tlookup name defs with
-                            | None => Err 1302
-                            | Some t =>
-                              do ct <- cnode f (name :: processing) t;
-                              match ct with
-                              | TLeaf => Err 703
-                              | TObj cprops _ cap =>
-                                do ap' <- (if N.eqb cap 0 then Ok ap
-                                           else if N.eqb ap 0 then Ok cap
-                                           else if N.eqb ap cap then Ok ap else Err 705);
-                                do acc' <- add_children name cprops acc;
-                                each r acc' ap'
-                              end
-                            end
-                     end) allof props ap;
-        let '(allprops, ap') := ext in
-        (* then the children, inherited copies included *)
-        do props' <- (fix kids (ps : list (key * bool * tname * tnode)) : res (list (key * bool * tname * tnode)) :=
-                        match ps with
-                        | [] => Ok []
-                        | (k, o, fr, v) :: r => do v' <- cnode f processing v; do r' <- kids r; Ok ((k, o, fr, v') :: r')
-                        end) allprops;
-        Ok (TObj props' [] ap')
+        do ext <- each (cnode f) processing allof props ap;
+        do props' <- kids (cnode f processing) (fst ext);
+        Ok (TObj props' [] (snd ext))
       end
     end.
 
